@@ -120,6 +120,17 @@ CHECKS = {
                   'returns any matching entry. Per path and per (statement, category: duplicate / unresolved / unused; conflict / repeated / unused / usage) z3 decides present => deserved and absent => not deserved, '
                   'and that a repeat points back to the first occurrence. The resolver closure is shown to record the key every node resolved to. Native sweep: 1 000+ import / declaration lists.',
              note='Trusted: std HashMap/HashSet behave as documented (modelled); Import::get_qualified_name is an atomic string per statement here (formatting: C17). Lists longer than the bound are outside.'),
+ 'C02': dict(engine='L (generated lexer table -> z3 regular expressions) + A/content (every grammar action executed symbolically from MIR) + z3 strings + native reference trees',
+             technique='z3 regular-expression emptiness over the real lexer table; symbolic execution of the real action MIR with mirror obligations; z3 strings for qualified names',
+             design='4/C02', category='model_checking',
+             text='Partial, by decomposition (the parser itself is not executed symbolically). LAYOUT: over the 37 generated lexer patterns z3 shows that no token pattern matches a word starting like trivia, '
+                  'no token can be extended across a trivia boundary, block comments end at their first */, line comments with their line, and every comment text is accepted - so the (kind, text) token '
+                  'sequence is independent of the white space / comments between tokens (unbounded words). CONTENT: each of the 202 non-error productions\' user actions is executed from its MIR on symbolic '
+                  'token texts / child nodes / positions; per production and path: every content-carrying child is used exactly once, verbatim, in source order and in the field the statement names, positions '
+                  'reach only ranges and the documentation look-up, Direction / oneway / transact code follow their tokens, qualified names are the identifiers joined by "." (z3 strings, 1..3 identifiers). '
+                  'Two known findings (array literals stored as `{...}`, enum-element annotations dropped). Native: reference trees of 3 documents using every construct under 8 layouts.',
+             note='Trusted: the regex crate / lalrpop_util longest-match lexing; the LR driver feeds actions with the symbols of the production it reduces (which production fires: C03); std text/Vec operations '
+                  'listed in the evidence. Outside: layouts with no separator at all; annotations on forward declarations (statement silent); documentation; positions.'),
  'C12': dict(engine='M (MIR of the Parser methods -> z3 arrays + uninterpreted functions; CFG path enumeration) + native history sweep',
              technique='inductive invariant over the real MIR: one z3 query per path of each operation (arrays, uninterpreted functions)', design='4/C12', category='model_checking',
              text='Every MIR path of add_content / remove_content / validate / add_file becomes an update of a z3 array S: Id -> Option<Result>. z3 shows for each path that the invariant '
@@ -139,7 +150,6 @@ CHECKS = {
 }
 
 NA = {
- 'C02': 'tree content is produced by the regex lexer, the generated __reduce and string-copying actions; none can be executed symbolically with what is installed (concrete 7-token parse under CBMC > 20 min; regex compilation not encodable)',
 }
 PENDING = {}
 for p in ['C01','C03','C04','C05','C06','C07','C08','C09','C10','C11','C14','C15','C16','C17','C18','C19']:
@@ -160,8 +170,8 @@ def main():
        {'name': 'P', 'path': 'lib/tables.py lib/lrdriver.py lib/pengine.py lib/refgrammar.py', 'serves_properties': ['C03', 'C14'], 'kind_free_text': 'LALR tables extracted from the generated parser of the current tree; model of the lalrpop_util driver incl. error recovery; path-forking symbolic execution; z3 CYK of a reference grammar'},
        {'name': 'T', 'path': 'lib/tmir.py lib/travcheck.py lib/resolvecheck.py lib/nonint.py', 'serves_properties': ['C05', 'C06', 'C08', 'C09', 'C13', 'C15', 'C16'], 'kind_free_text': 'event-trace symbolic executor for the traversal MIR (closures, slice iterators, ControlFlow) with inductive summaries for recursive walkers'},
        {'name': 'K', 'path': 'kani/ lib/kani.py lib/ksupport.py', 'serves_properties': ['C01', 'C04', 'C05', 'C07', 'C08', 'C10', 'C16', 'C18'], 'kind_free_text': 'Kani 0.68 / CBMC proof harnesses over the real crate (path dependency, hooks enabled)'},
-       {'name': 'A', 'path': 'lib/acteval.py', 'serves_properties': ['C04', 'C01'], 'kind_free_text': 'symbolic evaluator of the machine-generated __actionN wrappers: Range::new arguments as integer terms over token spans'},
-       {'name': 'L', 'path': 'lib/lexl.py', 'serves_properties': ['C03'], 'kind_free_text': 'generated lexer pattern table -> z3 regular expressions'},
+       {'name': 'A', 'path': 'lib/acteval.py lib/content.py lib/mirror.py', 'serves_properties': ['C01', 'C02', 'C04'], 'kind_free_text': 'symbolic evaluator of the machine-generated __actionN wrappers: Range::new arguments as integer terms over token spans'},
+       {'name': 'L', 'path': 'lib/lexl.py lib/layout.py', 'serves_properties': ['C02', 'C03'], 'kind_free_text': 'generated lexer pattern table -> z3 regular expressions'},
        {'name': 'replay', 'path': 'replay/', 'serves_properties': sorted(CHECKS), 'kind_free_text': 'native binary built against /repo (verif-hooks) that replays solver counterexamples through the public API'},
      ],
      'checks': [], 'not_applicable': [],
